@@ -350,6 +350,63 @@ class CdsIncorporateCollection(Case):
         return [obs_loc(r[1])[:3], [o(x) for x in _items(r[3])]]
 
 
+class GeneIncorporate(Case):
+    """GeneInterval.incorporate_variants: EVERY transcript of the new gene is the edited image of the corresponding
+    source transcript - also a sibling the variant does not touch but that lies downstream of it (its coordinates
+    move by the length change) - and the gene's span / identifiers follow.  Two single-exon isoforms, parentless
+    objects (coordinates only), variant wholly inside or outside each exon."""
+    props = ("C13", "C20")
+    summaries = (HOS,)
+    func = "gene.gene.GeneInterval.incorporate_variants"
+    module = "gene.gene"
+    shard_depth = 5
+    name = "GeneInterval.incorporate_variants[two single-exon isoforms, one variant]"
+    call = ("(lambda g: (g.start, g.end, g.gene_id, [t.chromosome_location for t in g.transcripts], "
+            "[t.transcript_id for t in g.transcripts]))(gene.incorporate_variants(v))")
+    raises = {"EmptyLocationException": lambda i: Or(*[a >= b for a, b in _image(i)])}
+    ensures = {
+        "every-isoform-is-the-edited-image": lambda i, r: And(len(r[3]) == 2, *[
+            Iff(covers_pos(r[3][k], i.q), And(_image(i)[k][0] <= i.q, i.q < _image(i)[k][1])) for k in range(2)]),
+        "span-follows": lambda i, r: And(r[0] == Min(_image(i)[0][0], _image(i)[1][0]),
+                                         r[1] == Max(_image(i)[0][1], _image(i)[1][1])),
+        "identifiers-kept": lambda i, r: And(r[2] == "g1", list(r[4]) == ["t0", "t1"]),
+    }
+
+    def inputs(self, S):
+        strand = strand_of(S, "strand")
+        starts, ends = [], []
+        for k in range(2):
+            s, e = S.int(f"s{k}"), S.int(f"e{k}")
+            S.assume(And(0 <= s, s < e))
+            starts.append(s)
+            ends.append(e)
+        vs, ve = S.int("v_start"), S.int("v_end")
+        alt = S.symstr("v_alt", "ACGTN")
+        S.assume(And(0 <= vs, vs < ve))
+        v = S.new(VAR, vs, ve, alt, "variant")
+        txs = [S.new(TRANSCRIPT, [starts[k]], [ends[k]], strand, transcript_id=f"t{k}") for k in range(2)]
+        gene = S.new("gene.gene.GeneInterval", txs, gene_id="g1")
+        l = slen(alt)
+        i = NS(gene=gene, v=v, vs=vs, ve=ve, l=l, d=l - (ve - vs), starts=starts, ends=ends, strand=strand, q=S.int("q"))
+        from .c13_variants import _placed_all as placed_each
+        S.assume(placed_each(i))
+        return i
+
+    def samples(self, rng):
+        d = dict(strand=rng.choice(["PLUS", "MINUS"]), q=rng.randint(0, 30))
+        for k in range(2):
+            s = rng.randint(0, 12)
+            d[f"s{k}"], d[f"e{k}"] = s, s + rng.randint(1, 8)
+        vs = rng.randint(0, 16)
+        d.update(v_start=vs, v_end=vs + rng.randint(1, 3), v_alt="".join(rng.choice("ACGT") for _ in range(rng.randint(0, 4))))
+        return d
+
+    def observe(self, r):
+        from .c02_single import obs_loc
+        from pyvc.check import default_observe as o
+        return [o(r[0]), o(r[1]), r[2], [obs_loc(x)[:2] for x in r[3]], list(r[4])]
+
+
 class TranscriptIncorporate(Case):
     props = ("C13",)
     summaries = (HOS,)  # callee contract proved by c02_single.OverlapCore
@@ -426,7 +483,7 @@ def _placed_cds(i):
 CASES = [FeatureIncorporate(1), FeatureIncorporate(2), CdsIncorporate(1),
          CdsIncorporate(2, place="downstream of"), CdsIncorporate(2, place="upstream of", tier="thorough"),
          CdsIncorporate(2, tier="thorough"), TranscriptIncorporate(1), TranscriptIncorporate(2, tier="thorough"),
-         CdsIncorporateCollection()]
+         CdsIncorporateCollection(), GeneIncorporate()]
 
 CANARIES = [
     dict(name="incorporate_variants: frames rebuilt from the first LISTED frame (F-C13-4)", props=("C13",),
